@@ -582,4 +582,102 @@ theorem sweep_ok (hk : fl.txVerdict = true → fl.atrKeepsKey = true)
     · exact all_valid_of fl (hk hx) _ t ht
 
 
+/-! ## no payout ⇒ the rebroadcast inputs keep their amounts (hence their utxo keys) -/
+
+theorem slipStep_keep (mult fee : Nat) (a : AtrAcc) (s : AtrSlip) (hm : 1 ≤ mult)
+    (h : a.tpa = 0 → ∀ r ∈ a.rebs, r.frm = r.amt) :
+    (atrSlipStep mult fee a s).tpa = 0 → ∀ r ∈ (atrSlipStep mult fee a s).rebs, r.frm = r.amt := by
+  by_cases hp : s.amt * mult > fee
+  · simp only [atrSlipStep, hp, if_true]
+    intro h0 r hr
+    have h1 : a.tpa = 0 := by omega
+    have h2 : s.amt * mult - s.amt = 0 := by omega
+    rw [List.mem_append, List.mem_singleton] at hr
+    rcases hr with hr | hr
+    · exact h h1 r hr
+    · subst hr
+      have h3 : s.amt ≤ s.amt * mult := Nat.le_mul_of_pos_right _ hm
+      simp only
+      omega
+  · simp only [atrSlipStep, hp, if_false]
+    exact h
+
+theorem foldSlip_keep (mult fee : Nat) (hm : 1 ≤ mult) (l : List AtrSlip) (a : AtrAcc)
+    (h : a.tpa = 0 → ∀ r ∈ a.rebs, r.frm = r.amt) :
+    (l.foldl (atrSlipStep mult fee) a).tpa = 0 → ∀ r ∈ (l.foldl (atrSlipStep mult fee) a).rebs, r.frm = r.amt := by
+  induction l generalizing a with
+  | nil => exact h
+  | cons s ss ih => exact ih _ (slipStep_keep mult fee a s hm h)
+
+theorem foldTx_keep (mult afpb : Nat) (hm : 1 ≤ mult) (l : List AtrTx) (a : AtrAcc)
+    (h : a.tpa = 0 → ∀ r ∈ a.rebs, r.frm = r.amt) :
+    (l.foldl (atrTxStep mult afpb) a).tpa = 0 → ∀ r ∈ (l.foldl (atrTxStep mult afpb) a).rebs, r.frm = r.amt := by
+  induction l generalizing a with
+  | nil => exact h
+  | cons t ts ih => exact ih _ (foldSlip_keep mult _ hm t.slips a h)
+
+theorem atrMult_pos (gp treasury anr : Nat) : 1 ≤ atrMult gp treasury anr := by
+  unfold atrMult; omega
+
+/-- a rebroadcast accumulator without payout rewrote no input amount -/
+theorem atrPre_keep (ctx : Ctx) (src : List AtrTx) (h0 : (atrPre ctx src).tpa = 0) :
+    ∀ r ∈ (atrPre ctx src).rebs, r.frm = r.amt := by
+  revert h0
+  unfold atrPre
+  cases ctx.prev with
+  | none => exact foldTx_keep 1 0 (Nat.le_refl 1) src {} (fun _ r hr => by cases hr)
+  | some p => exact foldTx_keep _ _ (atrMult_pos _ _ _) src {} (fun _ r hr => by cases hr)
+
+/-- … so with `NoAtrPayout` every rebroadcast of the created block spends the original output unchanged -/
+theorem atrSection_keep (fl : Flags) (ctx : Ctx) (id T : Nat) (h : NoAtrPayout ctx id) :
+    ∀ r ∈ (atrSection fl ctx id T).2.rebs, r.frm = r.amt := by
+  rw [atrSection_pre_eq_fin fl ctx id T h]
+  unfold atrSection
+  cases hs : atrSource ctx id with
+  | none => intro r hr; cases hr
+  | some src => exact atrPre_keep ctx src (h src hs)
+
+/-- the per-transaction verdict cannot reject what `Block::create` appends when no payout exists: the ATR
+    transactions keep the original utxo key (`frm = amt`), the fee transaction is exempt -/
+theorem appended_valid_of_noPayout (fl : Flags) (ctx : Ctx) (pool : List Tx) (gt : Option Tx) (ts : Nat)
+    (h : NoAtrPayout ctx (prevId ctx + 1)) :
+    ∀ t ∈ appended fl (mkBlock fl ctx pool gt ts).cv, t.valid = true := by
+  intro t ht
+  rw [appended_eq, List.mem_append] at ht
+  rcases ht with ht | ht
+  · simp only [List.mem_map] at ht
+    obtain ⟨r, hr, rfl⟩ := ht
+    have hr' : r ∈ (atrSection fl ctx (prevId ctx + 1) 0).2.rebs := hr
+    have := atrSection_keep fl ctx (prevId ctx + 1) 0 h r hr'
+    simp [Reb.toTx, this]
+  · unfold feeList at ht; cases hf : (mkBlock fl ctx pool gt ts).cv.feeTx <;> simp [hf] at ht; subst ht; rfl
+
+/-- H9 with the weakest hypothesis on the rebroadcasts: every ATR-typed transaction of the created block passes
+    the per-transaction verdict (needed only when that verdict gates validity) -/
+theorem sweep_ok_atr
+    (hav : fl.txVerdict = true → ∀ t ∈ (mkBlock fl ctx pool gt ts).txs, t.typ = .atr → t.valid = true)
+    (hv : fl.txVerdict = true → ∀ t ∈ gt.toList ++ pool, t.valid = true)
+    (hd : noDup (spendKeys (mkBlock fl ctx pool gt ts).txs) = true) :
+    sweepOk fl (mkBlock fl ctx pool gt ts).txs = true := by
+  unfold sweepOk
+  rw [Bool.and_eq_true]
+  refine ⟨?_, sweep_keys_ok _ hd⟩
+  cases hx : fl.txVerdict with
+  | false => rfl
+  | true =>
+    simp only [Bool.not_true, Bool.false_or, List.all_eq_true]
+    intro t ht
+    have htm := ht
+    rw [mk_txs, List.mem_append] at ht
+    rcases ht with ht | ht
+    · exact hv hx t ht
+    · rw [appended_eq, List.mem_append] at ht
+      rcases ht with ht | ht
+      · have htyp : t.typ = .atr := by
+          simp only [List.mem_map] at ht; obtain ⟨r, _, rfl⟩ := ht; rfl
+        exact hav hx t htm htyp
+      · unfold feeList at ht
+        cases hf : (gcv fl ctx (createView ctx pool gt ts)).feeTx <;> simp [hf] at ht
+        subst ht; rfl
+
 end Saito.Consensus
